@@ -231,7 +231,8 @@ def gen_fit_case(rng, models, kind, force=None):
     th = [float(v) for v in M["truth"](rng)]
     x0 = [float(v) for v in M["x0"](rng, th)]
     T = float(rng.uniform(*M["T"])); nobs = int(rng.integers(6, 13))
-    times = [float(t) for t in np.linspace(0.0, T, nobs + 1)]
+    th, x0, T, nobs = force.get("truth", th), force.get("x0", x0), force.get("T", T), force.get("nobs", nobs)
+    times = [float(force.get("t_shift", 0.0) + t) for t in np.linspace(0.0, T, nobs + 1)]
     obs = M["obs"][int(rng.integers(0, len(M["obs"])))]
     target = M["targets"][int(rng.integers(0, len(M["targets"])))]
     losses = M["losses"] if kind == "random" else [l for l in M["losses"] if l in ("SquareLoss", "NormalLoss", "GammaLoss")]
@@ -294,6 +295,16 @@ def fit_corpus():
         gen_fit_case(r, ["SEIR"], "random", dict(obs=["E", "I"], target=None, loss="NormalLoss")),
         gen_fit_case(r, ["Lotka_Volterra"], "random", dict(obs=["x", "y"], target=None, loss="PoissonLoss")),
         gen_fit_case(r, ["FitzHugh"], "truth", dict(obs=["V", "R"], target=None, loss="SquareLoss")),
+        # a calendar time axis (decimal years, weekly data): the model is autonomous, only the clock differs
+        gen_fit_case(r, ["SIR"], "truth", dict(obs=["I", "R"], target=["beta", "gamma"], loss="SquareLoss", truth=[60.0, 26.0, 1000.0],
+                                               x0=[990.0, 10.0, 0.0], T=0.5, nobs=26, t_shift=2020.0)),
+        gen_fit_case(r, ["SIR"], "random", dict(obs=["I"], target=["beta", "gamma"], loss="NormalLoss", truth=[60.0, 26.0, 1000.0],
+                                                x0=[990.0, 10.0, 0.0], T=0.5, nobs=26, t_shift=2020.0)),
+        # head counts instead of proportions: the transmission parameter is of order 1e-9
+        gen_fit_case(r, ["SIR_norm"], "truth", dict(obs=["I"], target=None, loss="SquareLoss", truth=[4e-9, 0.25],
+                                                    x0=[1e8 - 1e3, 1e3, 0.0], T=40.0)),
+        gen_fit_case(r, ["SIR_norm"], "truth", dict(obs=["I", "R"], target=["beta"], loss="SquareLoss", truth=[4e-9, 0.25],
+                                                    x0=[1e8 - 1e3, 1e3, 0.0], T=40.0)),
     ]
 
 
